@@ -497,3 +497,69 @@ def units():
     return _tu2() + [ScenUnit("tower predicates: Fq2 / Fq6 / Fq12 equal and is_zero decide every coordinate", ["C04", "C05", "C09"], gen_tower_predicates, max_paths=20000,
                               contracts_used=["Fq::equal / Fq::is_zero (C02: BigInt compare / is_zero, BV units)"],
                               note="the units of the upper layers treat these predicates as abstract decisions; this unit is where their bodies are enforced")]
+
+
+# the curve layer's small accessors (one-liners every unit above treats as given): is_zero of both point forms, copy
+def gen_curve_accessors(tu):
+    from symx import Interp, Leaf, Obj, Cell
+    from ringdom import leaves_of
+    from scen import guarded
+    for F in ("Fq", "Fq2"):
+        pj = "Projective<%s>" % F
+        af = [q.split("::")[0] for q in tu.by_qname if q.startswith("Affine<%s," % F) and q.endswith("::is_zero")]
+        for T in [pj] + af[:1]:
+            fz = tu.by_qname.get(T + "::is_zero")
+            fc = tu.by_qname.get(T + "::copy")
+            if fz is None or fz.body is None or fc is None or fc.body is None:
+                continue
+
+            def run_zero(path, T=T, fz=fz, proj=(T == pj)):
+                dom = RingDomain({F})
+                I = Interp(tu, dom)
+                I.path = path
+                o = I.new_object(T)
+                for k, (nm, lf) in enumerate(sorted(leaves_of(o, "o", {}).items())):
+                    if isinstance(lf, Leaf):
+                        lf.val = Poly.var("%s" % nm.split(".")[-1])
+                if not proj:
+                    flag = I.path.decide(("input", "infinity flag"), (0, 1))
+                    o.f["infinity"].v = flag
+                before = len(path.trace)
+                ret = 1 if I.rv(I.call(tu.func(T + "::is_zero"), o, [])) else 0
+                if not proj:
+                    return [("%s::is_zero == the infinity flag" % T, "ok" if ret == flag else "fail", "flag %d, returned %d" % (flag, ret), None)]
+                facts = [(lab, d) for (lab, d) in path.trace[before:] if isinstance(lab, tuple) and lab and lab[0] == "is_zero"]
+                ok = len(facts) == 1 and isinstance(facts[0][0][2], Poly) and ((facts[0][0][2] - Poly.var("z")).is_zero() or (facts[0][0][2] + Poly.var("z")).is_zero()) and bool(facts[0][1]) == bool(ret)
+                return [("%s::is_zero <=> z == 0" % T, "ok" if ok else "fail", repr([(repr(l[2]), d) for l, d in facts]), None)]
+            yield T + "::is_zero", guarded(run_zero)
+
+            def run_copy(path, T=T):
+                dom = RingDomain({F})
+                I = Interp(tu, dom)
+                I.path = path
+                a, o = I.new_object(T), I.new_object(T)
+                la = leaves_of(a, "a", {})
+                for k, (nm, lf) in enumerate(sorted(la.items())):
+                    if isinstance(lf, Leaf):
+                        lf.val = Poly.var("a%d" % k)
+                    else:
+                        lf.v = 1
+                for nm, lf in leaves_of(o, "a", {}).items():
+                    if isinstance(lf, Leaf):
+                        lf.val = Poly.var("old")
+                    else:
+                        lf.v = 0
+                I.call(tu.func(T + "::copy"), o, [a])
+                lo = leaves_of(o, "a", {})
+                bad = [nm for nm in la if (isinstance(la[nm], Leaf) and not (lo[nm].val - la[nm].val).is_zero()) or (isinstance(la[nm], Cell) and lo[nm].v != la[nm].v)]
+                return [("%s::copy copies every member" % T, "ok" if not bad else "fail", repr(bad), None)]
+            yield T + "::copy", guarded(run_copy)
+
+
+_tu3 = units
+
+
+def units():
+    from scen import ScenUnit
+    return _tu3() + [ScenUnit("curve accessors: Projective / Affine is_zero and copy", ["C05", "C06", "C09"], gen_curve_accessors,
+                              contracts_used=["F::is_zero (this module / C02)"], note="one-line members that every unit above takes as given")]
